@@ -157,9 +157,9 @@ func (e *Env) resolveType(name string) types.Type {
 			t = e.vc.P.TypesByName[name]
 			if t == nil {
 				parts := strings.SplitN(name, ".", 2)
-				if p := e.vc.P.PkgByName[parts[0]]; p != nil {
-					if o := p.Scope().Lookup(parts[1]); o != nil {
-						t = o.Type()
+				if o, _ := e.vc.P.lookupMember(parts[0], parts[1]); o != nil {
+					if tn, ok := o.(*types.TypeName); ok {
+						t = tn.Type()
 					}
 				}
 			}
@@ -276,7 +276,7 @@ func (e *Env) globalVar(p *types.Package, v *types.Var) Val {
 	name := "G_" + p.Name() + "." + v.Name()
 	t := v.Type()
 	if vc.flatStruct(t) {
-		return Val{Typ: types.NewPointer(t), L: []string{vc.declConst("gref_"+name, "Int")}}
+		return vc.loadStruct(e.heap, t, vc.declConst("gref_"+name, "Int"))
 	}
 	return vc.loadLoc(e.heap, &Loc{Fam: name, Typ: t})
 }
@@ -614,8 +614,8 @@ func (e *Env) evalSelector(t *ast.SelectorExpr) Val {
 	vc := e.vc
 	if id, ok := t.X.(*ast.Ident); ok {
 		if _, bound := e.lookupIdentQuiet(id.Name); !bound {
-			if p := vc.P.PkgByName[id.Name]; p != nil {
-				if o := p.Scope().Lookup(t.Sel.Name); o != nil {
+			if len(vc.P.PkgsByName[id.Name]) > 0 {
+				if o, p := vc.P.lookupMember(id.Name, t.Sel.Name); o != nil {
 					switch oo := o.(type) {
 					case *types.Const:
 						return e.constOf(oo)
@@ -820,6 +820,30 @@ func (e *Env) evalCall(t *ast.CallExpr) Val {
 			return boolVal("false")
 		}
 		return boolVal(eq(v.L[0], vc.typeTag(T)))
+	case "unbox":
+		// unbox(x, T): the value of dynamic type T carried by interface x
+		v := arg(0)
+		T := e.typeFromExpr(t.Args[1])
+		if T == nil || len(v.L) != 2 {
+			e.errf("unbox: bad arguments %s", exprStr(t))
+			return intVal("0")
+		}
+		fr := e.fr
+		if fr == nil {
+			fr = &Frame{vc: vc}
+		}
+		out := fr.unpayload(v.L[1], T)
+		out.Typ = T
+		return out
+	case "cast":
+		// cast(x, T): reinterpret an Int (reference) as a value of pointer type T
+		v := arg(0)
+		T := e.typeFromExpr(t.Args[1])
+		if T == nil {
+			e.errf("cast: unknown type %s", exprStr(t.Args[1]))
+			return intVal("0")
+		}
+		return Val{Typ: T, L: []string{v.L[len(v.L)-1]}}
 	case "closed":
 		v := arg(0)
 		vc.family("Chan.closed", "(Array Int Bool)")
